@@ -39,6 +39,9 @@ class C01(Monitor):
             exp = pool.num_running == size
             if pool.is_full != exp:
                 self.v("is_full != (num_running == size) at quiet idle", p, pool.is_full, pool.num_running, size)
+            elif pool.is_full != (w.live[p] == size) and not is_absorbing(w):
+                # the pool's own counter may be what is wrong: compare with the workers the harness knows to be in flight
+                self.v("is_full != (tasks in flight == size) at quiet idle", p, pool.is_full, w.live[p], size)
 
 
 class C02(Monitor):
@@ -607,9 +610,10 @@ class C06(Monitor):
         super().__init__(world)
         self.must_not_start = set()  # named in an accepted cancel() before their first step
         self.must_see = {}  # named in an accepted cancel() while suspended: key -> CancelledErrors seen before
+        self.self_named = {}  # tasks that named themselves in an accepted cancel()
 
     def __canon__(self):
-        return (sorted(self.must_not_start), sorted(self.must_see.items()))
+        return (sorted(self.must_not_start), sorted(self.must_see.items()), sorted(self.self_named.items()))
 
     def after_op(self, i, op, out):
         # cancel() calls made by the scenario itself (not the terminal probe): a call that returned without error has
@@ -626,12 +630,17 @@ class C06(Monitor):
             elif k not in w.exited:
                 cur = asyncio.current_task()
                 if cur is not None and cur.get_name() == f"{w.pools[p]}_Task-{t}":
-                    continue  # issued by that very worker from its own code: it is running, not suspended
+                    # issued by that very worker from its own code: it is running, not suspended; it may finish without
+                    # suspending again - but if it suspends, the cancellation arrives there
+                    self.self_named.setdefault(k, w.cancel_seen[k])
+                    continue
                 self.must_see.setdefault(k, w.cancel_seen[k])
 
     def sample(self, kind, key, tag):
         if kind == "w_start" and key in self.must_not_start:
             self.v("a task named in a cancel() that returned without error before the task's first step ran its body anyway", key)
+        if kind == "w_yielded" and key in self.self_named and self.w.cancel_seen[key] <= self.self_named[key]:
+            self.v("a task that named itself in a cancel() that returned without error resumed from its next suspension point uncancelled", key)
 
     def quiet_idle(self):
         w = self.w
@@ -941,16 +950,31 @@ class C10(Monitor):
         w = self.w
         if w.terminated:
             return
+        per_pool = {}
         for t, r in w.reqs.items():
             if r.kind != "start" or t in w.group_cancelled or w.cfg_size[r.p] == 0 or r.p in w.closed_pools or r.p in w.closing:
+                per_pool.setdefault(r.p, None)
+                if r.kind == "start":
+                    per_pool[r.p] = "skip"  # a cancelled / unfinished request on this pool: no total to compare
                 continue
             try:
                 ids = w.pools[r.p].get_group_ids(r.group)
             except X.InvalidGroupName:
+                per_pool[r.p] = "skip"
                 continue  # reported at idle
-            want = r.num - len(skipped_of(w, t))  # a call site that raises creates no task
-            if len(ids) != want:
-                self.v("group of a start(num) request does not hold num task ids once the request is complete", t, sorted(ids), want)
+            if len(ids) > r.num:
+                self.v("group of a start(num) request holds more than num task ids", t, sorted(ids), r.num)
+            if per_pool.get(r.p) != "skip":
+                have, want = per_pool.get(r.p) or (0, 0)
+                per_pool[r.p] = (have + len(ids), want + r.num)
+        for p, hw in per_pool.items():
+            if not hw or hw == "skip":
+                continue
+            # a call site that raises creates no task; which start() request a failing call belonged to is not known
+            # (one function per pool), so only the pool-wide total can be compared
+            skipped = len(w.skipped.get(w.simple_reqs[p].tag, ())) if p in w.simple_reqs else 0
+            if hw[0] != hw[1] - skipped:
+                self.v("groups of completed start(num) requests do not hold num task ids in total", p, hw[0], hw[1] - skipped)
 
     def live_groups(self, p):
         w = self.w
